@@ -64,11 +64,11 @@ theorem observed_file_trace_is_run (s0 : St) (tr : List Step) (r : Bool) (inner 
 -- non-vacuity: the try block the real code runs (the HDF5 writer removes and re-creates the cache file),
 -- other temp files present, faults at several positions
 private def blkEx : List Step :=
-  [.unlink 7, .openTemp 7 .rw, .mkTemp 7, .openTemp 7 .ro, .body "read_batch", .body "pool.map", .body "unpack"]
+  [.writeTemp 7, .unlink 7, .openTemp 7 .rw, .mkTemp 7, .openTemp 7 .ro, .body "read_batch", .body "pool.map", .body "unpack"]
 private def s3 : St := ⟨[3, 4], false⟩
 example : BlockOK 7 blkEx := all_okFor (by decide)
 -- no fault
-example : objectTrace s3 7 blkEx .none = [.mkTemp 7, .writeTemp 7] ++ blkEx ++ [.unlink 7] := by decide
+example : objectTrace s3 7 blkEx .none = [.mkTemp 7] ++ blkEx ++ [.unlink 7] := by decide
 example : objectCall s3 7 blkEx .none = (s3, false) := by decide
 -- fault while reading: the file exists, it is unlinked
 example : objectTrace s3 7 blkEx (.step 5)
@@ -78,7 +78,7 @@ example : objectTrace s3 7 blkEx (.step 5)
 example : objectTrace s3 7 blkEx (.step 2) = [.mkTemp 7, .writeTemp 7, .unlink 7, .openTemp 7 .rw] := by decide
 example : objectCall s3 7 blkEx (.step 2) = (s3, true) := by decide
 example : matchObject s3 [.mkTemp 7, .writeTemp 7, .unlink 7, .openTemp 7 .rw] true
-    = some (7, [.unlink 7, .openTemp 7 .rw], .step 2) := by decide
+    = some (7, [.writeTemp 7, .unlink 7, .openTemp 7 .rw], .step 3) := by decide
 -- the recogniser refuses a leaking trace, a foreign temp file and a user file opened writable
 example : matchObject s3 [.mkTemp 7, .writeTemp 7, .body "pool.map"] true = none := by decide
 example : matchObject s3 [.mkTemp 7, .writeTemp 7, .mkTemp 8, .unlink 7] false = none := by decide
